@@ -795,11 +795,14 @@ func extractResources(p *pkgs, f *facts) {
 						}
 						if _, ok := s.(*ast.ReturnStmt); ok && seenMk {
 							nRet++
+							// one of the statements in front of it, in the same block, removes the directory
 							prevOK := false
-							if i > 0 {
-								if es, ok := list[i-1].(*ast.ExprStmt); ok {
+							for _, ps := range list[:i] {
+								if es, ok := ps.(*ast.ExprStmt); ok {
 									c := exprString(es.X)
-									prevOK = strings.HasPrefix(c, "os.RemoveAll(") || removers[strings.TrimSuffix(c, "()")]
+									if (strings.HasPrefix(c, "os.RemoveAll(") && strings.Contains(c, "socketDir")) || removers[strings.TrimSuffix(c, "()")] {
+										prevOK = true
+									}
 								}
 							}
 							if !prevOK {
